@@ -114,8 +114,9 @@ def qbits(cv: "array", qm: "array", ncv, nqm, q):
     return cbits(qarr(cv, qm, q), min(ncv, nqm))
 
 
-@inline
+@specfun
 def ceil_to(x, a):
+    """x rounded up to a whole multiple of a (opaque in the minimality argument: only equal arguments matter there)."""
     return ((x + a - 1) // a) * a
 
 
@@ -145,7 +146,7 @@ def quantised_as(lst, cc, q):
 @spec(EP + "quantize_to_fit")
 class _quantize_to_fit:
     args = {"target_size": "int", "coeff_sets": "list:obj:ComponentCoeffs", "align_bits": "int", "minimum_qindex": "int"}
-    arg_cases = [{"coeff_sets": "list:obj:ComponentCoeffs#2"}, {"coeff_sets": "list:obj:ComponentCoeffs#3"}]
+    arg_cases = [{"coeff_sets": "list#2:obj:ComponentCoeffs"}, {"coeff_sets": "list#3:obj:ComponentCoeffs"}]
     result = "tuple:int,list:list:int"
     requires = ["target_size >= 0", "align_bits >= 1", "minimum_qindex >= 0", "length(coeff_sets) == 2 or length(coeff_sets) == 3"]
     modifies = []
@@ -165,10 +166,15 @@ class _quantize_to_fit:
         1: ["forall(minimum_qindex, _k, lambda q: total_len(coeff_sets, q, align_bits) > target_size, trigger=lambda q: set_bits(coeff_sets[0], q))"],
     }
     ghost = {
-        "loop1.body_start": [
-            "unfold(qbits, content(coeff_sets[0].coeff_values), content(coeff_sets[0].quant_matrix_values), length(coeff_sets[0].coeff_values), length(coeff_sets[0].quant_matrix_values), _k)",
-            "unfold(qbits, content(coeff_sets[1].coeff_values), content(coeff_sets[1].quant_matrix_values), length(coeff_sets[1].coeff_values), length(coeff_sets[1].quant_matrix_values), _k)",
-            "unfold(qbits, content(coeff_sets[2].coeff_values), content(coeff_sets[2].quant_matrix_values), length(coeff_sets[2].coeff_values), length(coeff_sets[2].quant_matrix_values), _k)",
+        "loop1.after_stmt2": [
+            # (after total_length = sum(...)) tie the code's arithmetic to the spec functions at this index
+            "unfold(qbits, content(coeff_sets[0].coeff_values), content(coeff_sets[0].quant_matrix_values), length(coeff_sets[0].coeff_values), length(coeff_sets[0].quant_matrix_values), qindex)",
+            "unfold(qbits, content(coeff_sets[1].coeff_values), content(coeff_sets[1].quant_matrix_values), length(coeff_sets[1].coeff_values), length(coeff_sets[1].quant_matrix_values), qindex)",
+            "unfold(qbits, content(coeff_sets[2].coeff_values), content(coeff_sets[2].quant_matrix_values), length(coeff_sets[2].coeff_values), length(coeff_sets[2].quant_matrix_values), qindex)",
+            "unfold(ceil_to, set_bits(coeff_sets[0], qindex), align_bits)",
+            "unfold(ceil_to, set_bits(coeff_sets[1], qindex), align_bits)",
+            "unfold(ceil_to, set_bits(coeff_sets[2], qindex), align_bits)",
+            "check(total_length == total_len(coeff_sets, qindex, align_bits))",
         ],
     }
 
@@ -274,6 +280,299 @@ class _get_safe_scaler:
     ]
 
 
+# ---- whole-picture packing: every slice is built by quantize_to_fit + make_hq_slice / make_ld_slice ---------------
+
+from contracts import c13_slice_sizes  # noqa: E402,F401  (slice_bytes is transparent; S4 lemmas)
+from contracts.c13_slice_sizes import S4_partial_sums, sum_slice_bytes  # noqa: E402
+from vc2_conformance.pseudocode.slice_sizes import slice_bytes  # noqa: E402
+from vc2_conformance.encoder.exceptions import InsufficientHQPictureBytesError, InsufficientLDPictureBytesError  # noqa: E402
+
+transparent("vc2_conformance.pseudocode.arrays.width", "vc2_conformance.pseudocode.arrays.height", "vc2_conformance.pseudocode.vc2_math.intlog2")
+fields(hq_slices="ref:list:dict:HQSlice", ld_slices="ref:list:dict:LDSlice")
+tuple_fields(Y=0, C1=1, C2=2)  # SliceCoeffs = namedtuple("SliceCoeffs", "Y,C1,C2")
+
+
+@lemma
+def hq_slice_units_fit_8_bits(pb: int, n: int, s: int, k: int):
+    """With a slice_size_scaler s at least as large as the 'safe' one, the payload of every HQ slice, counted in s-byte units,
+    is between 0 and 255: slice number k gets ((k+1)*N)//D - (k*N)//D units, N = picture_bytes - 4*slices, D = slices * s."""
+    requires(n >= 1 and s >= 1 and pb - 4 * n >= 0 and k >= 0)
+    requires(255 * s >= ceil_units(pb, n) - 4)
+    ensures(0 <= ((k + 1) * (pb - 4 * n)) // (n * s) - (k * (pb - 4 * n)) // (n * s))
+    ensures(((k + 1) * (pb - 4 * n)) // (n * s) - (k * (pb - 4 * n)) // (n * s) <= 255)
+    N = pb - 4 * n
+    D = n * s
+    use("mul_pos", n, s)
+    use("mul_mono", 1, s, n)
+    assert D >= 1
+    use("ceil_units_bounds", pb, n)
+    use("mul_mono", ceil_units(pb, n) - 4, 255 * s, n)
+    assert N <= 255 * D, "payload bytes <= 255 units per slice on average"
+    use("div_def", (k + 1) * N, D)
+    use("div_def", k * N, D)
+    use("mul_mono", k, k + 1, N)
+    use("div_mono", k * N, (k + 1) * N, D)
+    a = (k * N) // D
+    b = ((k + 1) * N) // D
+    assert D * (b - a) < 256 * D
+    use("mul_le_cancel", b - a, 255, D)
+
+
+@inline
+def hq_units(pb, n, s, k):
+    """Payload of HQ slice number k in units of s bytes: the k-th even share of the pb - 4*n payload bytes of n slices."""
+    return ((k + 1) * (pb - 4 * n)) // (n * s) - (k * (pb - 4 * n)) // (n * s)
+
+
+@lemma
+def hq_total_size(pb: int, n: int, s: int):
+    """The slices of a lossy HQ picture (4 bytes of qindex/length fields + hq_units * s payload bytes each) add up to
+    picture_bytes to within slice_size_scaler bytes: 4*n + s * floor((pb - 4*n) / s), by the telescoping sum of C13 (S4)."""
+    requires(n >= 1 and s >= 1 and pb - 4 * n >= 0)
+    N = pb - 4 * n
+    D = n * s
+    use("mul_pos", n, s)
+    use("mul_mono", 1, s, n)
+    S4_partial_sums(N, D, n)
+    total_units = sum_slice_bytes(N, D, n)
+    use("mul_div_exact", N, s, n)
+    use("mul_comm", n, N)
+    use("mul_comm", s, n)
+    assert total_units == N // s, "the units of all slices sum to floor(payload / s)"
+    use("div_def", N, s)
+    assert pb - s < 4 * n + s * total_units and 4 * n + s * total_units <= pb, "total == picture_bytes to within slice_size_scaler bytes"
+
+
+TC = "list:list:list#3:obj:ComponentCoeffs"  # rows of slices; a slice is the 3-tuple SliceCoeffs(Y, C1, C2)
+
+
+@spec(EP + "make_transform_data_hq_lossy")
+class _make_transform_data_hq_lossy:
+    args = {"picture_bytes": "int", "transform_coeffs": TC, "minimum_qindex": "int", "minimum_slice_size_scaler": "int"}
+    result = "tuple:int,dict:TransformData"
+    requires = ["length(transform_coeffs) >= 1 and length(transform_coeffs[0]) >= 1", "minimum_qindex >= 0"]
+    modifies = []
+    raises = {"InsufficientHQPictureBytesError": "picture_bytes < 4 * (length(transform_coeffs[0]) * length(transform_coeffs))"}
+    raises_exact = True
+    bounded_ensures = ["hq_lossy_picture_ok(picture_bytes, transform_coeffs, minimum_qindex, minimum_slice_size_scaler, result)"]
+    ensures = [
+        "result[0] >= 1 and result[0] >= minimum_slice_size_scaler",
+        "255 * result[0] >= ceil_units(picture_bytes, length(transform_coeffs[0]) * length(transform_coeffs)) - 4",
+        "has(result[1], 'hq_slices')",
+    ]
+    invariants = {
+        1: ["has(transform_data, 'hq_slices')", "is_fresh(transform_data['hq_slices'])", "length(transform_coeffs) == old(length(transform_coeffs)) and length(transform_coeffs[0]) == old(length(transform_coeffs[0]))"],
+        2: ["has(transform_data, 'hq_slices')", "is_fresh(transform_data['hq_slices'])", "length(transform_coeffs) == old(length(transform_coeffs)) and length(transform_coeffs[0]) == old(length(transform_coeffs[0]))"],
+    }
+    ghost = {
+        "loop2.body_start": [
+            "hq_slice_units_fit_8_bits(picture_bytes, num_slices, slice_size_scaler, sy * slices_x + sx)",
+        ],
+        "loop2.after_stmt2": [
+            # the slice's payload is its even share of (picture_bytes - 4 bytes of fixed fields per slice), in units of slice_size_scaler bytes
+            "check(total_length == hq_units(picture_bytes, length(transform_coeffs[0]) * length(transform_coeffs), slice_size_scaler, sy * length(transform_coeffs[0]) + sx))",
+            "check(target_size == 8 * slice_size_scaler * total_length)",
+        ],
+        "loop2.after_stmt3": [
+            # (after `qindex, (...) = quantize_to_fit(...)`) what quantize_to_fit established, in the terms make_hq_slice asks for
+            "unfold(qbits, content(transform_coeffs_slice[0].coeff_values), content(transform_coeffs_slice[0].quant_matrix_values), length(transform_coeffs_slice[0].coeff_values), length(transform_coeffs_slice[0].quant_matrix_values), qindex)",
+            "unfold(qbits, content(transform_coeffs_slice[1].coeff_values), content(transform_coeffs_slice[1].quant_matrix_values), length(transform_coeffs_slice[1].coeff_values), length(transform_coeffs_slice[1].quant_matrix_values), qindex)",
+            "unfold(qbits, content(transform_coeffs_slice[2].coeff_values), content(transform_coeffs_slice[2].quant_matrix_values), length(transform_coeffs_slice[2].coeff_values), length(transform_coeffs_slice[2].quant_matrix_values), qindex)",
+            "check(lbits(y_transform) == set_bits(transform_coeffs_slice[0], qindex))",
+            "check(lbits(c1_transform) == set_bits(transform_coeffs_slice[1], qindex))",
+            "check(lbits(c2_transform) == set_bits(transform_coeffs_slice[2], qindex))",
+            "unfold(ceil_to, lbits(y_transform), 8 * slice_size_scaler)",
+            "unfold(ceil_to, lbits(c1_transform), 8 * slice_size_scaler)",
+            "unfold(ceil_to, lbits(c2_transform), 8 * slice_size_scaler)",
+            "check((ceil_units(lbits(y_transform), 8 * slice_size_scaler) + ceil_units(lbits(c1_transform), 8 * slice_size_scaler)"
+            " + ceil_units(lbits(c2_transform), 8 * slice_size_scaler)) * (8 * slice_size_scaler) <= total_length * (8 * slice_size_scaler))",
+            'use("mul_le_cancel", ceil_units(lbits(y_transform), 8 * slice_size_scaler) + ceil_units(lbits(c1_transform), 8 * slice_size_scaler)'
+            ' + ceil_units(lbits(c2_transform), 8 * slice_size_scaler), total_length, 8 * slice_size_scaler)',
+        ],
+    }
+
+
+@spec(EP + "interleave")
+class _interleave:
+    args = {"a": "list:int", "b": "list:int"}
+    result = "list:int"
+    requires = []
+    modifies = []
+    raises = {}
+    ensures = [
+        "is_fresh(result)",
+        "length(result) == 2 * min(length(a), length(b))",
+        "forall(0, min(length(a), length(b)), lambda j: content(result)[2 * j] == content(a)[j] and content(result)[2 * j + 1] == content(b)[j], trigger=lambda j: content(a)[j])",
+    ]
+    invariants = {
+        1: [
+            "is_fresh(out)", "length(out) == 2 * _k", "length(a) == old(length(a)) and length(b) == old(length(b))",
+            "content(a) == old(content(a)) and content(b) == old(content(b))",
+            "forall(0, _k, lambda j: content(out)[2 * j] == content(a)[j] and content(out)[2 * j + 1] == content(b)[j], trigger=lambda j: content(a)[j])",
+        ],
+    }
+
+
+@lemma
+def cbits_zero_or_at_least_4(c: "array", n: int):
+    """A block is empty or at least 4 bits long: the last coded coefficient is non-zero, and a non-zero value takes >= 4 bits.
+    (This is what makes a 1-byte low-delay slice work: its slice_y_length field has 0 bits, so the luma block must be empty.)"""
+    ensures(cbits(c, n) == 0 or cbits(c, n) >= 4)
+    decreases(n if n > 0 else 0)
+    unfold(cbits, c, n)
+    if n > 0:
+        cbits_zero_or_at_least_4(c, n - 1)
+        unfold(pre_bits, c, n)
+        cbits_nonneg(c, n - 1)
+        use("blen_bound", abs(c[n - 1]) + 1, 1)
+        use("pow2_small", 1)
+
+
+@inline
+def ld_length_bits(sb):
+    """Width of the slice_y_length field of a low-delay slice of sb bytes (13.5.3.1)."""
+    return blen(8 * sb - 7 - 1)
+
+
+@spec(EP + "make_transform_data_ld_lossy")
+class _make_transform_data_ld_lossy:
+    args = {"picture_bytes": "int", "transform_coeffs": TC, "minimum_qindex": "int"}
+    result = "dict:TransformData"
+    requires = ["length(transform_coeffs) >= 1 and length(transform_coeffs[0]) >= 1", "minimum_qindex >= 0", "picture_bytes >= 0"]
+    modifies = []
+    raises = {"InsufficientLDPictureBytesError": None}
+    bounded_ensures = ["ld_lossy_picture_ok(picture_bytes, transform_coeffs, minimum_qindex, result)"]
+    ensures = ["has(result, 'ld_slices')"]
+    invariants = {
+        1: ["has(transform_data, 'ld_slices')", "is_fresh(transform_data['ld_slices'])",
+            "length(transform_coeffs) == old(length(transform_coeffs)) and length(transform_coeffs[0]) == old(length(transform_coeffs[0]))"],
+        2: ["has(transform_data, 'ld_slices')", "is_fresh(transform_data['ld_slices'])",
+            "length(transform_coeffs) == old(length(transform_coeffs)) and length(transform_coeffs[0]) == old(length(transform_coeffs[0]))"],
+    }
+    ghost = {
+        "loop2.after_stmt4": [
+            # the budget handed to quantize_to_fit is the slice's true budget (13.5.3.1): its even share of picture_bytes, minus
+            # 7 bits of qindex and the slice_y_length field
+            "(g_sb0 := ((sy * length(transform_coeffs[0]) + sx + 1) * picture_bytes) // (length(transform_coeffs[0]) * length(transform_coeffs))"
+            " - ((sy * length(transform_coeffs[0]) + sx) * picture_bytes) // (length(transform_coeffs[0]) * length(transform_coeffs)))",
+            "check(target_size == 8 * g_sb0 - 7 - ld_length_bits(g_sb0))",
+        ],
+        "loop2.after_stmt7": [
+            # (after `qindex, (y_transform, c_transform) = quantize_to_fit(...)`): what the slice needs of its coefficients
+            "(g_sb := slice_bytes(state, sx, sy))",
+            "unfold(qbits, content(y_coeffs.coeff_values), content(y_coeffs.quant_matrix_values), length(y_coeffs.coeff_values), length(y_coeffs.quant_matrix_values), qindex)",
+            "unfold(qbits, content(c_coeffs.coeff_values), content(c_coeffs.quant_matrix_values), length(c_coeffs.coeff_values), length(c_coeffs.quant_matrix_values), qindex)",
+            "unfold(ceil_to, lbits(y_transform), 1)", "unfold(ceil_to, lbits(c_transform), 1)",
+            "cbits_nonneg(content(c_transform), length(c_transform))",
+            "cbits_nonneg(content(y_transform), length(y_transform))",
+            "cbits_zero_or_at_least_4(content(y_transform), length(y_transform))",
+            'use("blen_def", 8 * g_sb - 8)', 'use("blen_neg", 8 - 8 * g_sb)',
+            # both blocks fit the slice: 7 bits of qindex + the length field + luma block + colour-difference block <= 8 * slice_bytes
+            "check(7 + ld_length_bits(g_sb) + lbits(y_transform) + lbits(c_transform) <= 8 * g_sb)",
+            # and the luma block's length fits its field
+            "check(lbits(y_transform) < pow2(ld_length_bits(g_sb)))",
+        ],
+    }
+
+
+# ---- whole-picture postconditions, native semantics only (bounded stand-in: the proofs above establish the same facts for an
+# arbitrary iteration at the point where the slice is built; that the returned list consists of exactly those slices, in raster
+# order, is only checked natively) --------------------------------------------------------------------------------------------
+
+
+def _quantised(comp, q):
+    return [fq(c, q, m) for c, m in zip(comp.coeff_values, comp.quant_matrix_values)]
+
+
+def _nbits(lst):
+    return cbits(list(lst), len(lst))
+
+
+def _smallest_fitting(sets, minq, align, budget, q):
+    """q is the smallest index >= minq whose blocks (each rounded up to `align` bits) fit `budget` bits."""
+    def tl(qq):
+        return sum(-(-_nbits(_quantised(c, qq)) // align) * align for c in sets)
+    return q >= minq and tl(q) <= budget and all(tl(qq) > budget for qq in range(minq, q))
+
+
+def hq_lossy_picture_ok(pb, tc, minq, mins, result):
+    s, td = result
+    rows, cols = len(tc), len(tc[0])
+    n = rows * cols
+    sl = td["hq_slices"]
+    if len(sl) != n or s < 1 or s < mins:
+        return False
+    total = 0
+    for k, hs in enumerate(sl):
+        sets = tc[k // cols][k % cols]
+        fields_ = [hs["slice_y_length"], hs["slice_c1_length"], hs["slice_c2_length"]]
+        if not all(0 <= f <= 255 for f in fields_):
+            return False  # every length field fits its 8-bit field
+        units = sum(fields_)
+        if units != hq_units(pb, n, s, k):
+            return False  # the slice has its even share of the picture's bytes
+        q = hs["qindex"]
+        if not _smallest_fitting(sets, minq, 8 * s, 8 * s * units, q):
+            return False  # smallest qindex (not below the minimum) whose coefficients fit the slice's budget
+        for comp, key, f in zip(sets, ("y_transform", "c1_transform", "c2_transform"), fields_):
+            if list(hs[key]) != _quantised(comp, q) or _nbits(hs[key]) > 8 * s * f:
+                return False  # coefficients are those quantised with q, and each block fits the space its length field announces
+        total += 4 + s * units
+    return pb - s < total <= pb  # total slice data == picture_bytes to within slice_size_scaler bytes
+
+
+def ld_lossy_picture_ok(pb, tc, minq, result):
+    rows, cols = len(tc), len(tc[0])
+    n = rows * cols
+    sl = result["ld_slices"]
+    if len(sl) != n:
+        return False
+    for k, ls in enumerate(sl):
+        from vc2_conformance.encoder.pictures import ComponentCoeffs
+
+        sets = tc[k // cols][k % cols]
+        sb = ((k + 1) * pb) // n - (k * pb) // n  # the slice's computed size in bytes (13.5.3.2)
+        lbits_ = (8 * sb - 7 - 1).bit_length()     # width of its slice_y_length field (13.5.3.1)
+        c = ComponentCoeffs([v for pair in zip(sets[1].coeff_values, sets[2].coeff_values) for v in pair],
+                            [v for pair in zip(sets[1].quant_matrix_values, sets[2].quant_matrix_values) for v in pair])
+        q = ls["qindex"]
+        if not _smallest_fitting([sets[0], c], minq, 1, 8 * sb - 7 - lbits_, q):
+            return False
+        if list(ls["y_transform"]) != _quantised(sets[0], q) or list(ls["c_transform"]) != _quantised(c, q):
+            return False
+        if ls["slice_y_length"] != _nbits(ls["y_transform"]) or not (0 <= ls["slice_y_length"] < 2 ** lbits_):
+            return False
+        if 7 + lbits_ + _nbits(ls["y_transform"]) + _nbits(ls["c_transform"]) > 8 * sb:
+            return False  # the slice occupies exactly its computed size: nothing is cut off
+    return True
+
+
+def hq_lossless_picture_ok(tc, mins, result):
+    s, td = result
+    rows, cols = len(tc), len(tc[0])
+    sl = td["hq_slices"]
+    if len(sl) != rows * cols or s < 1 or s < mins:
+        return False
+    for k, hs in enumerate(sl):
+        sets = tc[k // cols][k % cols]
+        if hs["qindex"] != 0:
+            return False
+        for comp, key, fk in zip(sets, ("y_transform", "c1_transform", "c2_transform"), ("slice_y_length", "slice_c1_length", "slice_c2_length")):
+            if list(hs[key]) != list(comp.coeff_values) or not (0 <= hs[fk] <= 255) or _nbits(hs[key]) > 8 * s * hs[fk]:
+                return False
+    return True
+
+
+@spec(EP + "make_transform_data_hq_lossless")
+class _make_transform_data_hq_lossless:
+    args = {"transform_coeffs": TC, "minimum_slice_size_scaler": "int"}
+    result = "tuple:int,dict:TransformData"
+    bounded_only = ("nested comprehension that allocates one HQSlice per entry and max() over a generator of dictionaries: outside the verified subset")
+    requires = ["length(transform_coeffs) >= 1 and length(transform_coeffs[0]) >= 1"]
+    raises = {}
+    bounded_ensures = ["hq_lossless_picture_ok(transform_coeffs, minimum_slice_size_scaler, result)"]
+
+
 # ---- native generators for the bounded stand-in (used when an obligation is undecided, and by bounded/c14_*.py) ----
 
 
@@ -289,9 +588,29 @@ def _gen_component(rng):
     return ComponentCoeffs(coeff_values=_gen_coeffs(rng, n), quant_matrix_values=[rng.randint(0, 6) for _ in range(n)])
 
 
+def _gen_tc(rng):
+    from vc2_conformance.encoder.pictures import SliceCoeffs
+
+    rows, cols = rng.choice([(1, 1), (1, 2), (2, 1), (2, 3), (3, 2), (1, 5)])
+    big = rng.random() < 0.3
+
+    def comp():
+        c = _gen_component(rng)
+        if big:
+            return type(c)([v * rng.choice([1, 50, 4000]) for v in c.coeff_values] * rng.choice([1, 4]), list(c.quant_matrix_values) * rng.choice([1, 4]))
+        return c
+
+    return [[SliceCoeffs(comp(), comp(), comp()) for _ in range(cols)] for _ in range(rows)]
+
+
 GENERATORS = {
     "list:int": _gen_coeffs,
     "list:obj:ComponentCoeffs": lambda rng: [_gen_component(rng) for _ in range(rng.choice([2, 3]))],
+    TC: lambda rng: _gen_tc(rng),
+    "param:picture_bytes": lambda rng: rng.choice([rng.randint(0, 40), rng.randint(0, 400), rng.randint(200, 3000)]),
+    "param:minimum_slice_size_scaler": lambda rng: rng.choice([1, 1, 1, 2, 3, rng.randint(-1, 6)]),
+    "param:qindex": lambda rng: rng.choice([0, rng.randint(0, 12), rng.randint(0, 60)]),
+    "optint": lambda rng: rng.choice([None, rng.randint(0, 30), rng.randint(0, 300)]),
     "param:minimum_qindex": lambda rng: rng.choice([0, 0, rng.randint(0, 12), rng.randint(0, 60)]),
     "param:target_size": lambda rng: rng.choice([rng.randint(0, 24), rng.randint(0, 200)]),
     "param:align_bits": lambda rng: rng.choice([1, 1, 8, 8, 16, rng.randint(1, 24)]),
